@@ -840,6 +840,9 @@ class Calls(object):
             if isinstance(a, ast.Starred):
                 raise Outside("*args at call site")
         pos = [ev.ev(a, st) for a in argnodes]
+        if len(pos) > len(params):
+            # an argument the contract knows nothing about (e.g. the count of pattern.sub): the contract does not describe this call
+            raise Outside("call of %s with %d positional arguments, its contract has %d parameters" % (c["name"], len(pos), len(params)))
         for p, v in zip(params, pos):
             env[p] = v
         for kw in node.keywords:
